@@ -165,7 +165,7 @@ def run_verus(rs, extra=None):
         j = json.loads(out) if out.strip().startswith("{") else {}
     except ValueError:
         j = {}
-    return {"rc": rc, "diags": diags, "json": j, "wall": wall, "stderr": err, "cmd": " ".join(cmd)}
+    return {"rc": rc, "diags": diags, "json": j, "wall": wall, "stderr": err, "cmd": " ".join(cmd), "rs": rs}
 
 
 def fn_of_line(meta, line):
@@ -206,6 +206,14 @@ def classify(res, meta, unit):
                     break
             if label:
                 break
+        if label is None and kind == "decreases" and spans:
+            # the span is the loop header (or the recursive call); the clause is the next `decreases` line of the sidecar
+            gen_lines = open(res["rs"]).read().split("\n") if "rs" in res else []
+            l0 = spans[0]["line_start"]
+            for ln in range(l0, min(l0 + 80, len(gen_lines) + 1)):
+                if ln in line_label and "decreases" in gen_lines[ln - 1]:
+                    label = line_label[ln]
+                    break
         # the function the obligation belongs to: for call-requires the caller (primary span)
         fn = None
         prim = [s for s in spans if s.get("is_primary")] or spans
